@@ -82,3 +82,16 @@ PROPS["C18"] = {"units": [
 PROPS["C16"] = {"units": [
     rapid_unit("in-package", "vfilter", "^TestC16Loss$", 1500, 16 * 6000, overlay="full"),
 ]}
+
+PROPS["C02"] = {"units": [
+    plain_unit("regress", "vnat", "^TestRegressC02", overlay="full"),
+    plain_unit("regress-e2e", "vnete2e", "^TestRegressC02", overlay="plain"),
+    rapid_unit("napt-in-package", "vnat", "^TestC02NAPT$", 10000, 16 * 200000, overlay="full"),
+    rapid_unit("one-to-one", "vnat", "^TestC02OneToOne$", 5000, 16 * 50000, overlay="full"),
+    rapid_unit("port-space", "vnat", "^TestC02PortSpace$", 12, 16 * 12, overlay="full"),
+]}
+PROPS["C03"] = {"units": [
+    plain_unit("regress", "vnat", "^TestRegressC03", overlay="full"),
+    rapid_unit("napt-in-package", "vnat", "^TestC03NAPT$", 10000, 16 * 200000, overlay="full"),
+    rapid_unit("one-to-one", "vnat", "^TestC03OneToOne$", 5000, 16 * 50000, overlay="full"),
+]}
